@@ -89,7 +89,9 @@ Definition ljust (w : nat) (fill : N) (s : text) : text :=
 (* strip a set of characters on both sides / on the right *)
 Fixpoint lstrip_by (p : N -> bool) (s : text) : text :=
   match s with c :: t => if p c then lstrip_by p t else s | [] => [] end.
-Definition rstrip_by (p : N -> bool) (s : text) : text := rev (lstrip_by p (rev s)).
+(* linear-time reversal (List.rev is quadratic, also after extraction); equal to rev: BytesFacts.frev_rev *)
+Definition frev {A} (l : list A) : list A := rev_append l [].
+Definition rstrip_by (p : N -> bool) (s : text) : text := frev (lstrip_by p (frev s)).
 Definition strip_by (p : N -> bool) (s : text) : text := rstrip_by p (lstrip_by p s).
 
 Definition is_nul (c : N) : bool := c =? 0.
